@@ -12,7 +12,7 @@ import json, os, shutil, subprocess, sys, tempfile, time
 
 HERE = os.path.dirname(os.path.dirname(os.path.abspath(__file__)))
 src, sid, prop = sys.argv[1], sys.argv[2], sys.argv[3]
-TGT = "/tmp/sv-target"
+TGT = os.environ.get("SV_TARGET", "/tmp/sv-target")
 wt = tempfile.mkdtemp(prefix="sv-wt-")
 os.rmdir(wt)
 env = dict(os.environ, CARGO_TARGET_DIR=TGT, CARGO_NET_OFFLINE="true")
